@@ -13,6 +13,34 @@ class PathEnd(Exception):
     pass
 
 
+def zcheck(solver, timeout_ms):
+    """solver.check() with a HARD limit: z3 occasionally ignores its own `timeout` parameter (nested to_int, nlsat
+    preprocessing); the check runs in a worker thread (ctypes releases the GIL) and the context is interrupted from here
+    when the grace period is over.  An interrupted check is `unknown`, never a verdict."""
+    import threading
+    solver.set('timeout', int(timeout_ms))
+    box = []
+
+    def run():
+        try:
+            box.append(solver.check())
+        except z3.Z3Exception:
+            box.append(z3.unknown)
+    th = threading.Thread(target=run, daemon=True)
+    th.start()
+    th.join(timeout_ms / 1000.0 + 1.5)
+    if th.is_alive():
+        for _ in range(50):
+            solver.ctx.interrupt()
+            th.join(0.2)
+            if not th.is_alive():
+                break
+        if th.is_alive():
+            raise EngineError('z3 check could not be interrupted')
+        return z3.unknown
+    return box[0] if box else z3.unknown
+
+
 class VpBreak(Exception):
     pass
 
@@ -96,7 +124,7 @@ def explore(thunk, pre=(), prune_ms=250, max_paths=4000):
                 sv.push()
                 sv.add(*pre)
                 sv.add(*pc)
-                dead = sv.check() == z3.unsat
+                dead = zcheck(sv, prune_ms) == z3.unsat
                 sv.pop()
             if not dead:
                 out.append(dict(pc=pc, kind=r[0], val=r[1], decisions=list(S.ctx.prefix)))
@@ -377,24 +405,174 @@ class Abstractor:
         s.side = []
         s.hyps = list(hyps)          # already-abstracted hypotheses usable in argument-equality questions
         s.defs = []
+        s._hsize = {}
+        s._fp = {}
+        s._samples = {}
+        s._atomfp = {}
 
-    def equal(s, u, v):
-        if u.eq(v):
+    # ---- numeric fingerprints: the value of an abstracted term at K fixed pseudo-random sample points under the TRUE
+    # semantics of the functions (complex arithmetic, so no domain errors).  Different fingerprints => the two terms are
+    # different functions => no solver question is asked (a merge is only ever justified by an `unsat`, so this filter can
+    # only lose completeness on measure-zero hypotheses, never soundness).
+    K = 3
+
+    def _sample(s, name):
+        if name not in s._samples:
+            h = 0
+            for c in name:
+                h = (h * 131 + ord(c)) % 1000003
+            import random as _r
+            rr = _r.Random(h)
+            s._samples[name] = tuple(complex(rr.uniform(0.3, 1.7), 0.0) for _ in range(s.K))
+        return s._samples[name]
+
+    def fp(s, t):
+        k = t.get_id()
+        if k in s._fp:
+            return s._fp[k][1]
+        import cmath
+        r = None
+        try:
+            if z3.is_rational_value(t):
+                v = t.numerator_as_long() / t.denominator_as_long()
+                r = (complex(v),) * s.K
+            elif z3.is_int_value(t):
+                r = (complex(t.as_long()),) * s.K
+            elif z3.is_const(t) and t.decl().kind() == z3.Z3_OP_UNINTERPRETED:
+                nm = t.decl().name()
+                if nm == 'pi':
+                    r = (complex(cmath.pi),) * s.K
+                elif nm in s._atomfp:
+                    r = s._atomfp[nm]
+                else:
+                    r = s._sample(nm)
+            elif z3.is_app(t):
+                kd = t.decl().kind()
+                ch = [s.fp(c) for c in t.children()]
+                if any(c is None for c in ch):
+                    r = None
+                elif kd == z3.Z3_OP_ADD:
+                    r = tuple(sum(c[i] for c in ch) for i in range(s.K))
+                elif kd == z3.Z3_OP_MUL:
+                    r = []
+                    for i in range(s.K):
+                        x = 1
+                        for c in ch:
+                            x = x * c[i]
+                        r.append(x)
+                    r = tuple(r)
+                elif kd == z3.Z3_OP_SUB:
+                    r = tuple(ch[0][i] - sum(c[i] for c in ch[1:]) for i in range(s.K)) if len(ch) > 1 else tuple(-x for x in ch[0])
+                elif kd == z3.Z3_OP_UMINUS:
+                    r = tuple(-x for x in ch[0])
+                elif kd == z3.Z3_OP_DIV:
+                    r = tuple(ch[0][i] / ch[1][i] for i in range(s.K))
+                elif kd == z3.Z3_OP_TO_REAL:
+                    r = ch[0]
+                elif kd == z3.Z3_OP_UNINTERPRETED:
+                    r = s._fn_fp(t.decl().name(), ch)
+                elif kd == z3.Z3_OP_TO_INT:
+                    import math as _m
+                    r = tuple(complex(_m.floor(x.real), _m.floor(x.imag)) for x in ch[0])
+                elif kd == z3.Z3_OP_ITE:
+                    r = tuple(ch[1][i] if ch[0][i] else ch[2][i] for i in range(s.K))
+                elif kd in (z3.Z3_OP_LE, z3.Z3_OP_LT, z3.Z3_OP_GE, z3.Z3_OP_GT):
+                    op = {z3.Z3_OP_LE: lambda a, b: a <= b, z3.Z3_OP_LT: lambda a, b: a < b, z3.Z3_OP_GE: lambda a, b: a >= b,
+                          z3.Z3_OP_GT: lambda a, b: a > b}[kd]
+                    r = tuple(op(ch[0][i].real, ch[1][i].real) for i in range(s.K))
+                elif kd == z3.Z3_OP_EQ and not z3.is_bool(t.arg(0)):
+                    r = tuple(abs(ch[0][i] - ch[1][i]) < 1e-12 for i in range(s.K))
+                elif kd == z3.Z3_OP_NOT:
+                    r = tuple(not x for x in ch[0])
+                elif kd == z3.Z3_OP_AND:
+                    r = tuple(all(c[i] for c in ch) for i in range(s.K))
+                elif kd == z3.Z3_OP_OR:
+                    r = tuple(any(c[i] for c in ch) for i in range(s.K))
+                else:
+                    r = None          # anything else: no fingerprint, the solver decides
+        except (ZeroDivisionError, OverflowError, ValueError):
+            r = None
+        s._fp[k] = (t, r)
+        return r
+
+    def _fn_fp(s, nm, ch):
+        import cmath
+        F = dict(sin=cmath.sin, cos=cmath.cos, tan=cmath.tan, atan=cmath.atan, asin=cmath.asin, acos=cmath.acos, sqrt=cmath.sqrt,
+                 sinh=cmath.sinh, cosh=cmath.cosh, log=cmath.log, exp=cmath.exp, atanh=cmath.atanh, asinh=cmath.asinh)
+        if nm in F and len(ch) == 1:
+            return tuple(F[nm](x) for x in ch[0])
+        if nm == 'atan2':
+            return tuple(-1j * cmath.log((x + 1j * y) / cmath.sqrt(x * x + y * y)) for y, x in zip(ch[0], ch[1]))
+        # summaries, loop UFs, round_n: a fixed generic analytic function of the arguments (congruence only)
+        h = sum(ord(c) * (i + 1) for i, c in enumerate(nm)) % 89 + 2
+        return tuple(sum(cmath.sin((h + 5 * a) * c[i] / 7 + a) for a, c in enumerate(ch)) + h / 10 for i in range(s.K))
+
+    @staticmethod
+    def _fp_close(a, b, sign=1):
+        if a is None or b is None:
+            return True               # cannot tell: ask the solver
+        for x, y in zip(a, b):
+            y = sign * y
+            if x != x or y != y:
+                return True
+            if abs(x - y) > 1e-9 * max(1.0, abs(x), abs(y)):
+                return False
+        return True
+
+    def equal(s, u, v, sign=1):
+        """is u == sign*v (justified by an unsat answer)?"""
+        w = v if sign == 1 else -v
+        if u.eq(w):
             return True
-        d = z3.simplify(u - v)
+        if not s._fp_close(s.fp(u), s.fp(v), sign):
+            return False
+        d = z3.simplify(u - w)
         if z3.is_rational_value(d):
             return d.as_fraction() == 0
-        sv = z3.Solver()
-        sv.set('timeout', s.timeout)
-        sv.add(*s.side)
-        sv.add(*s.hyps)
-        sv.add(*[q != 0 for q in denominators([u, v])])
-        sv.add(u != v)
+        den = [q != 0 for q in denominators([u, v])]
         t = time.time()
-        r = sv.check()
-        s.queries += 1
+        r = z3.unknown
+        # ladder of small questions: alone -> + side relations -> + the SMALL hypotheses (big nonlinear path literals
+        # such as `series < 0` are never handed to an argument-equality question)
+        sh = s.small_hyps()
+        for hs, to in (((), 500), (s.side, 1500), (s.side + sh, s.timeout)):
+            sv = z3.Solver()
+            sv.add(*hs)
+            sv.add(*den)
+            sv.add(u != w)
+            r = zcheck(sv, to)
+            s.queries += 1
+            if r == z3.unsat:
+                break
         s.qtime += time.time() - t
         return r == z3.unsat
+
+    def is_zero(s, u):
+        """u == 0 under the installed hypotheses (used for sin 0, tan 0, ... on paths such as lat == 0)"""
+        c = s._const(u)
+        if c is not None:
+            return c == 0
+        if not s.hyps:
+            return False
+        f = s.fp(u)
+        # a hypothesis may force u to 0 although u is not identically 0: only ask when some hypothesis is an equation
+        if f is not None and not any(z3.is_eq(h) for h in s.small_hyps()) and not s._fp_close(f, (0j,) * s.K):
+            return False
+        sv = z3.Solver()
+        sv.add(*s.small_hyps())
+        sv.add(u != 0)
+        s.queries += 1
+        return zcheck(sv, 1000) == z3.unsat
+
+    def small_hyps(s, limit=80):
+        out = []
+        for h in s.hyps:
+            k = h.get_id()
+            if k not in s._hsize:
+                s._hsize[k] = (h, len(subterms([h])))
+            if s._hsize[k][1] <= limit:
+                out.append(h)
+        return out
 
     def assume(s, hyps):
         """abstract and install hypotheses; the UF-free ones first so that they already serve the zero / equality
@@ -428,7 +606,7 @@ class Abstractor:
                 if len(ch) == 1:
                     u = ch[0]
                     c0 = s._const(u)
-                    if c0 is None and nm in ZERO_AT_ZERO and s.hyps and s.equal(u, z3.RealVal(0)):
+                    if c0 is None and nm in ZERO_AT_ZERO and s.is_zero(u):
                         c0 = 0
                     if c0 == 0 and nm in ZERO_AT_ZERO:
                         r = z3.RealVal(ZERO_AT_ZERO[nm])
@@ -441,7 +619,7 @@ class Abstractor:
                             if s.equal(c, u):
                                 r = a
                                 break
-                            if s.equal(c, -u):
+                            if s.equal(c, u, -1):
                                 r = -a
                                 break
                     if r is None and nm == 'log':
@@ -459,20 +637,22 @@ class Abstractor:
                             if s.equal(a, u):
                                 r = c
                                 break
-                            if nm in ODD and s.equal(a, -u):
+                            if nm in ODD and s.equal(a, u, -1):
                                 r = -c
                                 break
-                            if nm in EVEN and s.equal(a, -u):
+                            if nm in EVEN and s.equal(a, u, -1):
                                 r = c
                                 break
                     if r is None:
                         r = z3.Real('%s!%d' % (nm, len(s.atoms.get(nm, []))))
                         s.atoms.setdefault(nm, []).append(([u], r))
                         s.defs.append((r, nm, [u]))
+                        fu = s.fp(u)
+                        s._atomfp[r.decl().name()] = s._fn_fp(nm, [fu]) if fu is not None else None
                         other = {'sin': 'cos', 'cos': 'sin', 'sinh': 'cosh', 'cosh': 'sinh'}.get(nm)
                         if other:
                             for (a,), c in s.atoms.get(other, []):
-                                if s.equal(a, u) or (s.equal(a, -u)):
+                                if s.equal(a, u) or s.equal(a, u, -1):
                                     if nm in ('sin', 'cos'):
                                         s.side.append(r * r + c * c == 1)
                                     elif nm == 'cosh':
@@ -500,6 +680,8 @@ class Abstractor:
                         r = z3.Real('%s!%d' % (nm, len(s.atoms.get(nm, []))))
                         s.atoms.setdefault(nm, []).append((ch, r))
                         s.defs.append((r, nm, ch))
+                        fc = [s.fp(c) for c in ch]
+                        s._atomfp[r.decl().name()] = s._fn_fp(nm, fc) if all(f is not None for f in fc) else None
                         if nm == 'atan2':
                             s.side += [r > -PI, r <= PI]
             else:
@@ -548,13 +730,12 @@ def prove(goal, hyps=(), timeout=60000, rounds=2, use_axioms=True, cvc5=True, ex
     for stage, (H, ax) in enumerate(stages):
         s = z3.Solver()
         final = stage == len(stages) - 1
-        s.set('timeout', timeout if final else min(timeout, 4000))
         A = list(H) + den + list(extra) + [PI > z3.RealVal('3.14159'), PI < z3.RealVal('3.1416')]
         if ax:
             A += axioms(list(H) + [goal], rounds=rounds)
         A.append(z3.Not(goal))
         s.add(*A)
-        r = s.check()
+        r = zcheck(s, timeout if final else min(timeout, 4000))
         last = (r, s, A)
         QLOG.append(dict(stage=stage, result=str(r), ms=round(1000 * (time.time() - t0))))
         if r == z3.unsat:
@@ -583,10 +764,15 @@ def prove_eq(code, spec, hyps=(), timeout=60000, abstract=True, tol=None):
     H = A.assume(hyps)
     a, b = A.ab(code), A.ab(spec)
     goal = (a == b) if tol is None else z3.And(a - b <= tol, b - a <= tol)
-    res = prove(goal, H + A.side, timeout, use_axioms=False)
+    differ = tol is None and not A._fp_close(A.fp(a), A.fp(b))
+    # fingerprints differ: the two sides are different functions of the atoms; only a hypothesis could still equate
+    # them, so the solver gets a short budget (a refutation stays a refutation, this only bounds the time spent on it)
+    res = prove(goal, H + A.side, min(timeout, 5000) if differ else timeout, use_axioms=False)
     res['atoms'] = sum(len(v) for v in A.atoms.values())
     res['arg_queries'] = A.queries
-    if res['result'] != 'discharged':
+    if differ:
+        res['fingerprints_differ'] = True
+    if res['result'] != 'discharged' and not differ:
         # retry with raw (non-abstracted) axiom instances
         res2 = prove((code == spec) if tol is None else z3.And(code - spec <= tol, spec - code <= tol), hyps, min(timeout, 20000))
         if res2['result'] == 'discharged':
